@@ -1,10 +1,10 @@
 SPECIFICATION Spec
 CONSTANTS
-  Program <- McTwoClose
+  Program <- McTimeout
   ControlTakesLock = TRUE
   FlushAtomic = TRUE
   LatchChecked = TRUE
   CloseLatches = TRUE
-  TimeoutReleases = FALSE
-INVARIANTS TypeOK LockOK WholeFrames AfterClose InOrder ResultsHonest
+  TimeoutReleases = TRUE
+INVARIANTS TypeOK LockOK
 CHECK_DEADLOCK FALSE
